@@ -4,7 +4,7 @@ import glob, json, os, re
 V = os.path.dirname(os.path.abspath(__file__))
 res = json.load(open(os.path.join(V, "seeded", "RESULTS.json"))) if os.path.exists(os.path.join(V, "seeded", "RESULTS.json")) else {}
 rows = []
-for d in sorted(glob.glob(os.path.join(V, "seeded", "C*-m*"))):
+for d in sorted(glob.glob(os.path.join(V, "seeded", "C[0-9][0-9]-*"))):
     m = json.load(open(os.path.join(d, "meta.json")))
     sid = m["id"]
     r = res.get(sid, {})
@@ -13,9 +13,9 @@ for d in sorted(glob.glob(os.path.join(V, "seeded", "C*-m*"))):
     inst = re.search(r"instance=(\S+)", first)
     lab = re.search(r"label=(.*?) model=", first)
     what = (m.get("summary") or "").replace("|", "/").replace("\n", " ")
-    what = what[:150] + ("..." if len(what) > 150 else "")
+    what = what[:130] + ("..." if len(what) > 130 else "")
     caught = "**yes**" if det else ("no" if det is False else "n/a")
-    by = ("%s: %s" % (inst.group(1), lab.group(1)[:70])) if (det and inst and lab) else (r.get("note", "") or "")
+    by = ("%s: %s" % (inst.group(1), lab.group(1)[:60])) if (det and inst and lab) else (r.get("note", "") or "")
     rows.append("| %s | %s | %s | %s |" % (sid, what, caught, by.replace("|", "/")))
 n = len(rows); k = sum(1 for x in rows if "**yes**" in x)
 block = ["<!-- SEEDED-TABLE-BEGIN -->", "", "%d of %d seeded changes are detected by the quick tier of the check of their own property." % (k, n), "",
